@@ -201,6 +201,21 @@ fn parse_rule_parameter(
             let tk_typename = walker.expect(report, syntax::TokenKind::Identifier)?;
             let typename = walker.get_span_excerpt(tk_typename.span);
             let typ = interpret_typename(typename);
+
+            if let AstRuleParameterType::Unsigned(size) |
+                AstRuleParameterType::Signed(size) |
+                AstRuleParameterType::Integer(size) = typ
+            {
+                if size as u64 > util::BIGINT_MAX_BITS
+                {
+                    report.error_span(
+                        "value is out of supported range",
+                        tk_typename.span);
+
+                    return Err(());
+                }
+            }
+
             (typ, tk_typename.span)
         }
         else
